@@ -9,6 +9,7 @@
  "unwind_functions": {"harness": 34},
  "timeout": 300,
  "mem_gb": 4,
+ "tier": "thorough",
  "cases": [{"name": "foreign_fiber", "D": ["-DVF_OWNED=0"]}, {"name": "matching_frame", "D": ["-DVF_OWNED=1"]}],
  "functions_encoded": ["marsh.c: unmarshal_one_env, unmarshal_one (reference case), readint, readnat", "fiber.c: janet_env_valid, janet_fiber"],
  "asserted": ["U2: a closure environment read from an untrusted image with ARBITRARY offset and length integers that names a fiber carries the untrusted marker (offset <= 0) when unmarshal_one_env returns, so the interpreter's janet_env_valid check cannot be skipped", "U4: the real janet_env_valid, run on that environment, either rejects it and leaves an EMPTY environment (length 0, no values) or accepts it only when offset is the frame of the fiber that owns this very environment and length equals that frame's slot count, so offset+index stays inside the fiber's stack for every index below length", "an off-stack environment has a value array of exactly length > 0 slots"],
